@@ -7,6 +7,7 @@ coincide; embedded child == creating it on its own).
 """
 import os
 import shutil
+import zlib
 
 from .. import drive
 from ..gen import descriptions as G
@@ -44,13 +45,28 @@ class World:
     def __init__(self, root):
         self.root = root
         self.files = {}
+        self.symlinks = 0
         os.makedirs(root, exist_ok=True)
 
     def add(self, rel, data, absolute=False):
         path = os.path.join(self.root, rel[2:] if rel.startswith("./") else rel)
         os.makedirs(os.path.dirname(path) or self.root, exist_ok=True)
-        with open(path, "wb") as fh:
-            fh.write(data)
+        if os.path.islink(path):
+            os.unlink(path)
+        if zlib.crc32(rel.encode()) % 6 == 0:
+            # the referenced path is a SYMBOLIC LINK (relative or absolute target) to the real file, as in
+            # `app_latest.bin -> build/app_v1.2.3.bin`: digest, size and content are those of the file it points to
+            tdir = os.path.join(self.root, "link targets")
+            os.makedirs(tdir, exist_ok=True)
+            target = os.path.join(tdir, f"{zlib.crc32(path.encode()):08x}.real")
+            with open(target, "wb") as fh:
+                fh.write(data)
+            os.symlink(target if zlib.crc32(rel.encode()) % 12 == 0 else os.path.relpath(target, os.path.dirname(path)),
+                       path)
+            self.symlinks += 1
+        else:
+            with open(path, "wb") as fh:
+                fh.write(data)
         ref = path if absolute else rel
         self.files[os.path.normpath(path)] = data
         return ref
@@ -259,6 +275,7 @@ def one_build(rec, case, root, pno):
             out = drive.create_file(src, dst, route, fmt)
         for k in counters.items:
             rec.count(k)
+        rec.count("references-through-symbolic-links", w.symlinks)
         rec.count("route:" + route)
         rec.count("kind:" + case["kind"])
         if pno:
